@@ -4,6 +4,7 @@ package c20
 
 import (
 	"fmt"
+	"math"
 	"reflect"
 	"sort"
 	"strings"
@@ -472,6 +473,18 @@ func units(string) []engine.Unit {
 		{Name: "assoc-string", Run: finish(func(r *engine.Rec) { associative(r, "string", gen(func(i int) string { return fmt.Sprintf("k%02d", 40-i) })) })},
 		{Name: "assoc-int64", Run: finish(func(r *engine.Rec) { associative(r, "int64", gen(func(i int) int64 { return int64(100 - 7*i) })) })},
 		{Name: "assoc-rune", Run: finish(func(r *engine.Rec) { associative(r, "rune", gen(func(i int) rune { return rune('z' - i) })) })},
+		{Name: "assoc-float64", Run: finish(func(r *engine.Rec) {
+			// float keys incl. a key that is not equal to itself (NaN) and both zeros' representative
+			associative(r, "float64", gen(func(i int) float64 {
+				switch i {
+				case 2:
+					return math.NaN()
+				case 4:
+					return 0
+				}
+				return 50.25 - 3.5*float64(i)
+			}))
+		})},
 		{Name: "assoc-any", Run: finish(func(r *engine.Rec) {
 			associative[any](r, "any", gen(func(i int) any {
 				if i%2 == 0 {
